@@ -177,7 +177,18 @@ class C07(Prop):
 # ==========================================================================================
 class C01(Prop):
     pid = "C01"
-    theorems = [("C01_roundtrip", None)]
+    theorems = [("C01_roundtrip",
+                 "forall (cap : cap_t) (p : list N), cap_ok cap (length p) -> "
+                 "enc_collect p = frame p /\\ encode_buf None p = Some (frame p) /\\ "
+                 "(exists d', run cap init (frame p) = (d', map (fun _ => (ONone, [])) (removelast (frame p)) ++ [(OMsg, p)]) /\\ snd (finalize d') = None) /\\ "
+                 "decode_fn (frame p) = [RMsg p] /\\ "
+                 "(snd (di_all cap (length (frame p) + 2) (di_new (frame p))) = [RMsg p] /\\ "
+                 "forall k, di_extra cap k (fst (di_all cap (length (frame p) + 2) (di_new (frame p)))) = repeat None k) /\\ "
+                 "(forall kind, kind <> KEh -> snd (rd_all cap (length (frame p) + 2) (rd_new kind (map SByte (frame p)))) = [RdOk p])")]
+    level_text = ("Theorem C01_roundtrip (Coq, closed): for every payload and every buffer holding |p| bytes, both encoders yield frame p and "
+                  "the push decoder, decode(), decode_streaming and the slice/iterator/io::Read readers yield exactly p at the last byte "
+                  "and nothing else (forward simulation along the encoder loop incl. the 8-bit pad counter, zero cache and re-alignment). "
+                  "Oracle: real encoders -> real front-ends on payloads up to 8 KiB (thorough 64 KiB) with capacity exactly |p|.")
     suite_names = "S-ENC+S-DEC+S-FRONT (rt)"
     rule = ("payloads from G-PAY; per payload the real encoders (Vec + iterator) produce the frame, which is fed to the push "
             "decoder (+finalize), decode() and decode_streaming (+2 extra next()) with a buffer of capacity >= |p| from the "
@@ -677,7 +688,15 @@ def norm_results(kind, o):
 
 class C15(Prop):
     pid = "C15"
-    theorems = [("C15_frontends", None)]
+    theorems = [("C15_frontends",
+                 "forall s : list N, decode_fn s = results (snd (run None init s)) ++ fin (fst (run None init s)) /\\ "
+                 "(forall cap, snd (di_all cap (length s + 2) (di_new s)) = results (snd (run cap init s)) ++ fin (fst (run cap init s)) /\\ "
+                 "(forall k, di_extra cap k (fst (di_all cap (length s + 2) (di_new s))) = repeat None k)) /\\ "
+                 "(forall cap kind, kind <> KEh -> snd (rd_all cap (length s + 2) (rd_new kind (map SByte s))) = "
+                 "map to_rd (results (snd (run cap init s))) ++ map eof_of (fin (fst (run cap init s))))")]
+    level_text = ("Theorem C15_frontends (Coq, closed): decode(), decode_streaming and the readers over slice/iterator/io::Read report exactly "
+                  "the push decoder's results followed by finalize's leftover report (readers: the same count as IoErr(Eof, n)); buffer "
+                  "independence below capacity is C16_until_full. Oracle: all real front-ends pairwise on adversarial streams.")
     suite_names = "S-FRONT (dec+finalize, fdecode, fstream, rd slice/iter/io)"
     rule = ("byte streams from G-STREAM (frames, corrupted frames with recomputed CRC, noise, trailing partial data); every front-end "
             "(push decoder + finalize, decode, decode_streaming, SmlReader over slice / iterator / io::Read calling next::<DecodedBytes> "
@@ -762,7 +781,18 @@ def same_results(a, b):
 # ==========================================================================================
 class C16(Prop):
     pid = "C16"
-    theorems = [("C16_exact", None)]
+    theorems = [("C16_exact",
+                 "forall m : list N, exists d', run (Some (length m)) init (frame m) = "
+                 "(d', map (fun _ => (ONone, [])) (removelast (frame m)) ++ [(OMsg, m)]) /\\ st d' = Done /\\ rev (rbuf d') = m"),
+                ("C16_oom",
+                 "forall (n : nat) (m : list N), (n < length m)%nat -> exists s1 b s2 d1, frame m = s1 ++ b :: s2 /\\ "
+                 "run (Some n) init s1 = (d1, map (fun _ => (ONone, [])) s1) /\\ snd (step (Some n) d1 b) = OErr OutOfMemory /\\ "
+                 "norm (fst (step (Some n) d1 b)) = norm init"),
+                ("C16_until_full", None)]
+    level_text = ("Theorems C16_exact, C16_oom, C16_until_full (Coq, closed): capacity exactly |m| decodes frame m; any smaller capacity "
+                  "yields OutOfMemory with nothing (no payload) before it and a state equal to a new decoder's up to norm (C14); a "
+                  "fixed-capacity decoder equals the growable one until the first write beyond its capacity. Oracle: real ArrayBuf<N> "
+                  "decoders for N around |m| incl. the 8 KiB default, each frame followed by a second frame.")
     suite_names = "S-DEC (dec, rd)"
     rule = ("payloads (esp. ending in zero runs / 0x1b runs) x fixed capacities N around |m| from the menu (N = |m| exactly, N < |m|, "
             "N = |m|+1), incl. the default 8 KiB reader buffer with payloads of 8190..8194 bytes; each frame is followed by a second "
@@ -1834,10 +1864,10 @@ class C11(Prop):
         return bad
 
 
-REGISTRY = {"C02": C02, "C05": C05, "C07": C07, "C14": C14, "C17": C17, "C18": C18}
+REGISTRY = {"C01": C01, "C02": C02, "C05": C05, "C07": C07, "C14": C14, "C15": C15, "C16": C16, "C17": C17, "C18": C18}
 
 NOT_CLAIMED = {}
-for _p in ["C01", "C03", "C04", "C06", "C08", "C09", "C10", "C11", "C12", "C13", "C15", "C16"]:
+for _p in ["C03", "C04", "C06", "C08", "C09", "C10", "C11", "C12", "C13"]:
     NOT_CLAIMED[_p] = "check under construction in this revision (model/theorem not yet committed); the technique applies, see DESIGN.md section 5"
 
 
